@@ -195,6 +195,10 @@ func (g *gen) forcedLine(slot string) bool {
 // ---------------------------------------------------------------- separators
 
 func (g *gen) ws() string {
+	// round 4: every rune the scanner's isWhiteSpace accepts on a line (form feed, vertical tab, carriage return too)
+	if g.r.Chance(1, 40) {
+		return g.r.PickS("\f", "\v", " \f ", "\v ", "\r", " \r")
+	}
 	switch g.r.Intn(10) {
 	case 0:
 		return "  "
@@ -302,6 +306,10 @@ func (g *gen) str() string {
 	if c20Zero && g.r.Chance(1, 14) {
 		return `""`
 	}
+	// round 4: the neighbours of the zero string - blank but not empty, blanks at the ends (kept by the formatter)
+	if c20Zero && g.r.Chance(1, 14) {
+		return g.r.PickS(`" "`, `"  "`, `" a "`, `"a "`, `" a"`)
+	}
 	if g.ctlLit && g.r.Chance(1, 12) {
 		return `"` + g.r.PickS("a\tb", "\tx", "tab\t") + `"`
 	}
@@ -311,6 +319,9 @@ func (g *gen) str() string {
 func (g *gen) rawstr() string {
 	if c20Zero && g.r.Chance(1, 14) {
 		return "``"
+	}
+	if c20Zero && g.r.Chance(1, 20) {
+		return g.r.PickS("` `", "`  `", "` a `")
 	}
 	if g.ctlLit && g.r.Chance(1, 8) {
 		return "`" + g.r.PickS("two\nlines", "a\tb", "x\n\ty", "x \ny", "x\n y", "\tx") + "`"
@@ -781,6 +792,25 @@ func (g *gen) mutate(s string) string {
 		return s
 	}
 	pos := g.r.Intn(len(rs))
+	// round 4: a word of the grammar (statement keyword, `returns`, `map`, `any`, an HTTP method) gets a suffix / a
+	// prefix / loses its last letter: a near-keyword must not be taken for the keyword
+	if g.r.Chance(1, 5) {
+		words := []string{"syntax", "info", "import", "type", "service", "returns", "map", "any", "get", "post", "put", "delete", "interface"}
+		off := g.r.Intn(len(words))
+		for k := range words {
+			w := words[(off+k)%len(words)]
+			if i := strings.Index(s, w); i >= 0 {
+				switch g.r.Intn(3) {
+				case 0:
+					return s[:i] + w + g.r.PickS("s", "x", "_", "1") + s[i+len(w):]
+				case 1:
+					return s[:i] + g.r.PickS("x", "_") + w + s[i+len(w):]
+				default:
+					return s[:i] + w[:len(w)-1] + s[i+len(w):]
+				}
+			}
+		}
+	}
 	switch g.r.Intn(7) {
 	case 0: // delete a run
 		end := pos + g.r.Range(1, 6)
@@ -848,7 +878,111 @@ func sectionOf(kind string, id int, g *gen, chunks []string) verifh.Section {
 		s.Ops = append(s.Ops, "s "+esc(c))
 	}
 	s.Ops = append(s.Ops, "fmt")
+	// round 4: several calls on one AST, several parser instances at once, format.File (every 5th / 9th / 11th program)
+	h := 0
+	for _, c := range chunks {
+		h = h*31 + len(c)
+	}
+	if h%5 == 0 {
+		s.Ops = append(s.Ops, "again")
+	}
+	if h%9 == 1 {
+		s.Ops = append(s.Ops, "inter")
+	}
+	if h%11 == 2 {
+		s.Ops = append(s.Ops, "file")
+	}
 	return s
+}
+
+// ---------------------------------------------------------------- round 4: token soups for the scanner
+
+var c20DurUnits = []string{"ns", "µs", "ms", "s", "m", "h"}
+
+// duration: valid compound durations (1h2m3s4ms5µs6ns in the scanner's order), and near misses
+func (g *gen) lexDuration() string {
+	n := func() string { return g.r.PickS("0", "1", "3", "10", "250", "007", "1234567890") }
+	switch g.r.Intn(6) {
+	case 0:
+		return n() + g.r.PickS(c20DurUnits...)
+	case 1: // compound, descending units (what the scanner's state machine accepts)
+		from := g.r.Intn(len(c20DurUnits))
+		var b strings.Builder
+		for i := len(c20DurUnits) - 1 - from; i >= 0; i-- {
+			if g.r.Intn(3) != 0 || b.Len() == 0 {
+				b.WriteString(n() + c20DurUnits[i])
+			}
+		}
+		return b.String()
+	case 2: // random unit order
+		var b strings.Builder
+		for i, k := 0, g.r.Range(2, 4); i < k; i++ {
+			b.WriteString(n() + g.r.PickS(c20DurUnits...))
+		}
+		return b.String()
+	case 3: // unit followed by letters / a delimiter / nothing
+		return n() + g.r.PickS(c20DurUnits...) + g.r.PickS("ec", "our", "x", ")", "//c", "/*c*/", ",", "-", "_", "s", "1", "")
+	case 4: // cut in the middle of a unit
+		return n() + g.r.PickS("n", "µ", "n1", "µ1", "m1", "h1", "s1", "ms1", "1m2", "n)", "µ ")
+	default:
+		return n()
+	}
+}
+
+func (g *gen) lexAtom() string {
+	switch g.r.Intn(16) {
+	case 0, 1:
+		return g.lexDuration()
+	case 2:
+		return g.r.PickS("interface{}", "interface {}", "interface{", "interface", "interfaces{}", "xinterface{}", "interface{}{}", "interface{ }")
+	case 3:
+		return g.r.PickS(".", "..", "...", "....", ".....", ". .", "..x", "...x", "a.b", "1.5")
+	case 4:
+		return g.r.PickS("@doc", "@handler", "@server", "@docs", "@doc1", "@doc_x", "@Doc", "@x", "@", "@ doc", "@1", "@@doc", "@handlerfoo", "@doc(")
+	case 5:
+		return g.r.PickS("\"a b\"", "\"\"", "``", "`a\nb`", "\"a\\\"b\"", "\"a", "`a", "\"a`", "`a\"", "\"a\nb\"", "\"//x\"", "`/*`")
+	case 6:
+		return g.r.PickS("//c", "// c ", "/* c */", "/**/", "/***/", "/* * / */", "/*", "/* c *", "/* c /", "/", "/ /", "/*/", "//", "/** x/y */")
+	case 7:
+		return g.r.PickS("-", "*", "(", "[", "{", ",", ")", "]", "}", ";", ":", "=", "==", ":=", "->")
+	case 8:
+		return g.r.PickS("#", "$", "%", "&", "!", "?", "<", ">", "|", "\\", "^", "~", "'", "+", "é", "日本", "µ", "\u00a0", "\u2028")
+	case 9:
+		return g.r.PickS("_", "_a", "a_1", "A1_b2", "a1", "1a", "1_a", "_1", "a-b", "a.b", "get", "returns", "map", "any")
+	case 10:
+		return g.r.PickS("0", "00", "123", "9876543210", "1e3", "0x1f", "1_000")
+	default:
+		return g.ident()
+	}
+}
+
+// lexSoup: a token soup; the scanner must tokenise it exactly as its model does and must not lose a character
+func (g *gen) lexSoup() []string {
+	var chunks []string
+	for i, k := 0, g.r.Range(1, 6); i < k; i++ {
+		var b strings.Builder
+		for j, m := 0, g.r.Range(1, 7); j < m; j++ {
+			b.WriteString(g.lexAtom())
+			b.WriteString(g.r.PickS(" ", " ", "", "", "\n", "\t", " \n ", "\r\n", "\f", "\v"))
+		}
+		chunks = append(chunks, b.String())
+	}
+	if strings.Contains(strings.Join(chunks, ""), "/") {
+		// a form feed / vertical tab / tab behind `//` (also in a later chunk) would be part of a line comment: that is the
+		// known class of control characters in comments (tabwriter cells), not a scanner matter
+		for i := range chunks {
+			chunks[i] = strings.NewReplacer("\f", " ", "\v", " ", "\t", " ").Replace(chunks[i])
+		}
+	}
+	return chunks
+}
+
+// lexValid: a small valid program around one scanner-level atom in a position where the grammar admits its token kind
+func (g *gen) lexValid() []string {
+	d := g.lexDuration()
+	sep := g.r.PickS("", " ", "\n", "//c\n", "/*c*/", " // c\n")
+	return []string{fmt.Sprintf("@server(%stimeout: %s%s)\nservice %s {\n\t@handler %s\n\tget /%s\n}\n",
+		g.r.PickS("", "prefix: /a-b/c\n", "group: a_1\n"), d, sep, g.ident(), g.ident(), g.ident())}
 }
 
 // c20Classes: the known defect classes of the unchanged formatter (each one is a finding, see props/C20.json).
@@ -859,6 +993,19 @@ func c20Gen(r *verifh.Rng) []verifh.Section {
 		return c20SweepSections(r, 40, "probe")
 	}
 	var secs []verifh.Section
+	if os.Getenv("C20_NUL") != "" {
+		// reproduction of the NUL defect (not part of the default streams: the pinned scanner ends the input at a NUL rune
+		// silently; fixes/C20-scanner-nul-rune.patch repairs it): a valid program, a NUL rune, more text
+		for i := 0; i < 20; i++ {
+			g := &gen{r: r.Fork(), tiny: true}
+			chunks := append(g.program(), "\x00", g.r.PickS(" garbage", "\ntype T { A int }\n", ")", ""))
+			g.class = "nul-rune"
+			sec := sectionOf("nul", i, g, chunks)
+			sec.Cfg = strings.Replace(sec.Cfg, "sure=1", "sure=0", 1)
+			secs = append(secs, sec)
+		}
+		return secs
+	}
 	nprog := verifh.Scale(300, 6000)
 	for i := 0; i < nprog; i++ {
 		g := &gen{r: r.Fork()}
@@ -906,6 +1053,16 @@ func c20Gen(r *verifh.Rng) []verifh.Section {
 				g.comments = i % 2
 			}
 			secs = append(secs, sectionOf("valid", i, g, g.program()))
+		}
+	}
+	// round 4: scanner streams - token soups (mostly invalid programs) and durations inside a valid @server block
+	nlex := verifh.Scale(300, 6000)
+	for i := 0; i < nlex; i++ {
+		g := &gen{r: r.Fork(), tricky: true}
+		if i%4 == 3 {
+			secs = append(secs, sectionOf("lexv", i, g, g.lexValid()))
+		} else {
+			secs = append(secs, sectionOf("lex", i, g, g.lexSoup()))
 		}
 	}
 	// every position x every comment form, in isolation
